@@ -41,6 +41,7 @@ structure PipeSrc where
 
 inductive FrontErr where
   | StaticSamplerUnexpectedBindingIndex
+  | FunctionAttributeDuplicate
   | PipelineAlreadyDefined
   | PipelinePropertyDuplicate
   | PipelineEntryPointFunctionUnknown
@@ -51,6 +52,7 @@ inductive FrontErr where
 
 def FrontErr.name : FrontErr → String
   | .StaticSamplerUnexpectedBindingIndex => "StaticSamplerUnexpectedBindingIndex"
+  | .FunctionAttributeDuplicate => "FunctionAttributeDuplicate"
   | .PipelineAlreadyDefined => "PipelineAlreadyDefined"
   | .PipelinePropertyDuplicate => "PipelinePropertyDuplicate"
   | .PipelineEntryPointFunctionUnknown => "PipelineEntryPointFunctionUnknown"
@@ -72,6 +74,13 @@ structure PipeDef where
   stages : List StageRec
   graphics : Bool
   deriving DecidableEq, Repr, Inhabited
+
+/-- `typer/functions.rs` `parse_function_attributes` restricted to the `numthreads` attributes (the only kind the
+    model carries; all of one discriminant): `acc` = the attributes accepted so far.  Since fix "a function attribute
+    can be given only once" an attribute of a kind the function already has is refused. -/
+def parseFunctionAttributes : List (Nat × Nat × Nat) → List (Nat × Nat × Nat) → Except FrontErr (List (Nat × Nat × Nat))
+  | acc, [] => .ok acc
+  | acc, a :: r => if !acc.isEmpty then .error .FunctionAttributeDuplicate else parseFunctionAttributes (acc ++ [a]) r
 
 /-- indices of the functions called `n` (the `for id in function_registry.iter()` loop of `add_stage`) -/
 def fnIndices : List FnSrc → String → Nat → List Nat
@@ -131,6 +140,40 @@ def parsePipelines (funcs : List FnSrc) : List String → List PipeSrc → Excep
       match parsePipelines funcs (earlier ++ [p.name]) r with
       | .error e => .error e
       | .ok rest => .ok (d :: rest)
+
+/-- what the front end meets in file order, as far as the model follows it: a function declaration / definition
+    (its attributes are parsed each time) or a `Pipeline` block -/
+inductive Item where
+  | fn (f : FnSrc)
+  | pipe (p : PipeSrc)
+  deriving DecidableEq, Repr, Inhabited
+
+/-- the root definitions of a file in source order; the first error refuses the file.  `funcs` = the function
+    registry `add_stage` searches. -/
+def parseFile (funcs : List FnSrc) : List String → List Item → Except FrontErr (List PipeDef)
+  | _, [] => .ok []
+  | earlier, .fn f :: r =>
+    match parseFunctionAttributes [] f.attrs with
+    | .error e => .error e
+    | .ok _ => parseFile funcs earlier r
+  | earlier, .pipe p :: r =>
+    match parsePipeline funcs earlier p with
+    | .error e => .error e
+    | .ok d =>
+      match parseFile funcs (earlier ++ [p.name]) r with
+      | .error e => .error e
+      | .ok rest => .ok (d :: rest)
+
+/-- the `Pipeline` blocks / the functions among the items -/
+def itemPipes : List Item → List PipeSrc
+  | [] => []
+  | .fn _ :: r => itemPipes r
+  | .pipe p :: r => p :: itemPipes r
+
+def itemFns : List Item → List FnSrc
+  | [] => []
+  | .fn f :: r => f :: itemFns r
+  | .pipe _ :: r => itemFns r
 
 /-- the stage list `build_pipeline` walks -/
 def stageDefs (p : PipeDef) : List StageDef := p.stages.map fun s => { stage := s.stage, entry := s.entry }
